@@ -313,6 +313,9 @@ class _Component:
                 )
             else:
                 pval = _get_mand(config[cls._cparams["name"]], key)
+            if isinstance(pval, dict):
+                # inline tables are decoded as a dict subclass
+                pval = dict(pval)
             if type(pval) not in cls._cparams["params"][key]["typ"]:
                 raise ValueError("Parameter {} is not of the correct type".format(key))
             fparams[key] = pval
